@@ -7,6 +7,7 @@ package main
 
 import (
 	"context"
+	"crypto/sha256"
 	"encoding/hex"
 	"flag"
 	"fmt"
@@ -128,6 +129,7 @@ type scnRec struct {
 	Mhp    uint32      `json:"mhp"`
 	Mhc    uint32      `json:"mhc"`
 	Params []paramRec  `json:"params"`
+	MsgOK  bool        `json:"msgok"` // Certificate.Sign produces the signature over the LIP certificate message
 	Sched  []paramRec  `json:"sched"` // the scenario's own parameter schedule (key = first height in force)
 	Chain  []hdrRec    `json:"chain"`
 	Ops    []opRec     `json:"ops"`
@@ -204,19 +206,62 @@ func (s *scenario) certOf(h *blockchain.BlockHeader) [5]uint64 {
 	return [5]uint64{s.blockCode(h.ID), uint64(h.Height), uint64(h.Timestamp), code32(h.StateRoot), code32(h.ValidatorsHash)}
 }
 
-// signature of key ki over the certificate of header h (real BLS), registered in the symbol table
+// ---- the certificate message, computed here from the certificate FIELDS as LIP-0061 / LIP-0037 define it, independently
+// of Certificate.SigningBytes / Sign / Verify: SHA-256("LSK_CE_" ‖ chainID ‖ encode(blockID(1), height(2), timestamp(3),
+// stateRoot(4), validatorsHash(5))) signed with the BLS proof-of-possession ciphersuite.
+func varint(x uint64) []byte {
+	out := []byte{}
+	for x >= 0x80 {
+		out = append(out, byte(x)|0x80)
+		x >>= 7
+	}
+	return append(out, byte(x))
+}
+
+func certMessage(chain []byte, blockID []byte, height, timestamp uint32, stateRoot, validatorsHash []byte) []byte {
+	enc := []byte{}
+	bytesField := func(n int, b []byte) {
+		enc = append(enc, byte(n<<3|2))
+		enc = append(enc, varint(uint64(len(b)))...)
+		enc = append(enc, b...)
+	}
+	bytesField(1, blockID)
+	enc = append(enc, byte(2<<3))
+	enc = append(enc, varint(uint64(height))...)
+	enc = append(enc, byte(3<<3))
+	enc = append(enc, varint(uint64(timestamp))...)
+	bytesField(4, stateRoot)
+	bytesField(5, validatorsHash)
+	h := sha256.Sum256(append(append([]byte("LSK_CE_"), chain...), enc...))
+	return h[:]
+}
+
+var blsDST = []byte("BLS_SIG_BLS12381G2_XMD:SHA-256_SSWU_RO_POP_")
+
+func blsSignIndependent(msg, sk []byte) []byte {
+	k := new(blst.SecretKey).Deserialize(sk)
+	return new(blst.P2Affine).Sign(k, msg, blsDST).Compress()
+}
+
+// signature of key ki over the certificate FIELDS carried by h (h.ID is taken as the block ID as it stands, so a
+// certificate with the ID of one block and other fields can be signed), registered in the symbol table
 func (s *scenario) signCert(ki int, h *blockchain.BlockHeader) []byte {
-	k := fmt.Sprintf("%d/%x", ki, h.ID)
+	k := fmt.Sprintf("%d/%x/%d/%d/%x/%x", ki, h.ID, h.Height, h.Timestamp, h.StateRoot, h.ValidatorsHash)
 	if v, ok := s.single[k]; ok {
 		return v
 	}
-	c := certificate.NewCertificateFromBlock(h)
-	c.Sign(chainID, s.sks[ki])
-	sig := []byte(c.Signature)
+	sig := blsSignIndependent(certMessage(chainID, h.ID, h.Height, h.Timestamp, h.StateRoot, h.ValidatorsHash), s.sks[ki])
 	s.single[k] = sig
 	ce := s.certOf(h)
 	s.sigTab[hex.EncodeToString(sig)] = sigSym{K: "s", P: [][6]uint64{{uint64(ki), ce[0], ce[1], ce[2], ce[3], ce[4]}}}
 	return sig
+}
+
+// what the implementation signs for the certificate of h must be the signature over the LIP message
+func (s *scenario) implSignsLIPMessage(ki int, h *blockchain.BlockHeader) bool {
+	c := certificate.NewCertificateFromBlock(h)
+	c.Sign(chainID, s.sks[ki])
+	return string(c.Signature) == string(s.signCert(ki, h)) && c.Verify(chainID, s.signCert(ki, h), s.pks[ki])
 }
 
 func aggregateSigs(sigs [][]byte) []byte {
@@ -548,6 +593,10 @@ func (s *scenario) snapshotEnv(phase int) {
 	op := opRec{}
 	s.dumpPool(&op)
 	rec.PG0, rec.PNG0 = op.PG, op.PNG
+	rec.MsgOK = true
+	for _, hh := range []uint32{0, s.tip / 2, s.tip} {
+		rec.MsgOK = rec.MsgOK && s.implSignsLIPMessage(int(hh)%s.nkeys, s.headers[hh])
+	}
 	rec.Sched = append([]paramRec{}, s.sched...)
 	s.rec = rec
 }
@@ -826,6 +875,41 @@ func (s *scenario) verifyOps(budget int) {
 		for v := 0; v < 3; v++ {
 			_, sig := s.honest(a.h, a.subset, vals, s.foreignHeader(a.h, v))
 			s.verifyOp("sig-foreign-cert", a.h, a.bits, sig)
+		}
+		// same block ID, one other certificate field changed; the right certificate signed for another chain
+		for v := 0; v < 3; v++ {
+			alt := *s.headers[a.h]
+			switch v {
+			case 0:
+				alt.Timestamp++
+			case 1:
+				alt.StateRoot = id32(uint32(code32(alt.StateRoot)) + 10)
+			case 2:
+				alt.ValidatorsHash = id32(uint32(code32(alt.ValidatorsHash)) + 10)
+			}
+			_, sig := s.honest(a.h, a.subset, vals, &alt)
+			s.verifyOp("sig-same-id-other-field", a.h, a.bits, sig)
+		}
+		{
+			sigs := [][]byte{}
+			own := s.headers[a.h]
+			for i, v := range vals {
+				if a.subset.has(i) {
+					sigs = append(sigs, blsSignIndependent(certMessage([]byte{0, 0, 0, 8}, own.ID, own.Height, own.Timestamp, own.StateRoot, own.ValidatorsHash), s.sks[v.ki]))
+				}
+			}
+			if len(sigs) > 0 {
+				s.verifyOp("sig-foreign-chain", a.h, a.bits, aggregateSigs(sigs))
+			}
+			sigs = sigs[:0]
+			for i, v := range vals { // the chain ID left out of the message
+				if a.subset.has(i) {
+					sigs = append(sigs, blsSignIndependent(certMessage(nil, own.ID, own.Height, own.Timestamp, own.StateRoot, own.ValidatorsHash), s.sks[v.ki]))
+				}
+			}
+			if len(sigs) > 0 {
+				s.verifyOp("sig-no-chain", a.h, a.bits, aggregateSigs(sigs))
+			}
 		}
 		other := append(sset{}, a.subset...)
 		flip := r.Intn(len(other))
